@@ -24,6 +24,13 @@ def _mk(t1, t2, method, threads=16, form='list_of_arrays', src='rand'):
 
 def cases(tier, rng, boost=1):
     yield _mk([[1, 1, 1, 2, 2, 3]], [[1, 1, 2, 2, 2, 3]], 0, src='corpus')
+    # many states on both sides (contingency table larger than the 8- and 16-bit ranges), narrow per-array dtypes
+    brng = core.Rng(47)
+    a_ = [[brng.randrange(260) for _ in range(800)]]
+    b_ = [[(x * 7 + brng.randrange(3)) % 20 for x in a_[0]]]
+    for m_ in (0, 1):
+        yield _mk(a_, b_, m_, form='per_array_narrow', src='corpus-big')
+        yield _mk(a_, b_, m_, form='unsigned_mixed', src='corpus-big')
     yield _mk([[0] * 30 + [1] * 4 + [0] * 3], [[0] * 31 + [1] * 3 + [2] * 3], 1, threads=16, src='corpus')   # N=37, rare state
     maxn = {'quick': 5, 'thorough': 6, 'search': 5}[tier]
     k = 0
